@@ -63,7 +63,7 @@ CLAIMS = {
          "Lean 4 theorem (loop invariant over source variants, induction over histories) + correspondence"),
  "C08": ("Refinement theorem: the unsafe loop, modelled slot by slot with use-after-move/overwrite/type-confusion as explicit errors, "
          "equals the plain left-to-right pass for every input length and every converter (tryConvert_refines, three-region "
-         "invariant as a representation function); corollaries C08_result, C08_calls, C08_prev_is_last_output, C08_all_abandoned. Scripts include inputs of thousands of elements / hundreds of KiB (size thresholds).", "4 C08", V_NOTE,
+         "invariant as a representation function); corollaries C08_result, C08_calls, C08_prev_is_last_output, C08_all_abandoned, C08_map (always-converting converter that leaves the previous output alone = input.map f). Scripts include inputs of thousands of elements / hundreds of KiB (size thresholds).", "4 C08", V_NOTE,
          "Lean 4 refinement theorem (loop invariant by induction) + correspondence, debug and optimised builds"),
  "C09": ("C09_cleanup (failure at any call: every live output and every unconsumed input dropped exactly once, nothing leaked, "
          "buffer released, that very error/payload returned, no later call) and C09_no_memory_error, for all lengths, converters "
